@@ -69,21 +69,39 @@ Theorem C13_empty_object_is_default : forall s x t sb rest fuel d,
 Proof. exact empty_object_default. Qed.
 Print Assumptions C13_empty_object_is_default.
 
-(** Reader level: after the fields the reader knows, anything may follow in the body -- unknown
-    presence bits in the last known block, further blocks, their payloads ([gcode]'s [gc_done]); and
-    a body may stop after any block when all later fields are absent ([gc_cut]).
-    NOT PROVED (hence _partial): the schema-pair formulation
-      [extends s_old s_new -> dec2 s_old t (enc2 s_new t v) = Ok (project v)]
-    (needs a relation between two schemas and a lemma about [trim]/[chunk8] of appended items);
-    the check exercises it with pairs of freshly generated Go packages and the model under the old schema. *)
-Theorem C13_unknown_tail_ignored_partial :
+(** Schema evolution: [tnew] = the struct [told] with fields appended (same schema table, the
+    common fields have the same types).  What the generated writer of [tnew] writes is read by the
+    generated reader of [told] -- the unknown presence bits, blocks and payloads are skipped -- as
+    the value without the appended fields.
+    NOT PROVED (hence _partial): simultaneous extension of several nested struct types (the old
+    and the new field types are then different instances) and of union variants; the check
+    exercises those with pairs of freshly generated Go packages and the model under the old schema. *)
+Theorem C13_old_reader_new_writer_partial : forall s x, wf2 s x = true ->
+  forall told tnew tag tag' fds ext fs fs' b fuel rest,
+    nth_error s told = Some (TStruct tag fds) -> nth_error s tnew = Some (TStruct tag' (fds ++ ext)) ->
+    x_alias x told = false -> x_alias x tnew = false -> x_uidx x told = x_uidx x tnew ->
+    (forall i, (i < length fds)%nat -> x_bit x told i = x_bit x tnew i) ->
+    length fs = length fds ->
+    enc2 s x tnew false (VStruct (fs ++ fs')) = Some b -> (vdepth (VStruct fs) <= fuel)%nat ->
+    dec2 fuel s x told (b ++ rest)
+      = Some (Ok (VStruct (norm_fields (fun t' ze' v' => norm2 s x t' ze' v') fds fs), rest)) /\
+    exists fs2, norm2 s x tnew false (VStruct (fs ++ fs'))
+                = VStruct (norm_fields (fun t' ze' v' => norm2 s x t' ze' v') fds fs ++ fs2).
+Proof. intros s x Hwf. exact (old_reader_new_writer s x Hwf). Qed.
+Print Assumptions C13_old_reader_new_writer_partial.
+
+(** Reader level, in full generality: after the fields the reader knows, anything may follow in
+    the body -- unknown presence bits in the last known block, further blocks, their payloads
+    ([gcode]'s [gc_done]); and a body may stop after any block when all later fields are absent
+    ([gc_cut]: fields missing at the end are empty). *)
+Theorem C13_unknown_tail_ignored :
   forall rec dfl empt get oi idx fds bitf items nvs body,
     items_ok rec dfl empt bitf 0 fds items nvs ->
     get oi = Some (idx, fds, bitf) ->
     bcode oi (firstn 7 items) (chunk8 (length (skipn 7 items)) (skipn 7 items)) body ->
     dec_body rec dfl empt get body = Some (Ok (idx, nvs)).
 Proof. intros. eapply body_rt; eauto. Qed.
-Print Assumptions C13_unknown_tail_ignored_partial.
+Print Assumptions C13_unknown_tail_ignored.
 
 (** Non-vacuity: one value, its minimal encoding and a re-encoding using a 9-byte object size, an
     explicitly written default field, a second (zero) presence block, an unknown field after the
